@@ -495,6 +495,30 @@ def register_period_acceptance(db):
                 hints=hints, call_variants=plan, ensures=post, raises={}, properties=PR,
                 note="shape dispatch (startswith / length / find / rfind) followed by the format scanner",
             ))
+    register_legacy_gmonth(db)
+
+
+def register_legacy_gmonth(db):
+    """The XSD 1.0 spelling of gMonth, '--MM--' (kept by the library as "bogus format"): _parse_period cuts the
+    trailing dashes out (value[:4] + value[6:]) and parses the rest as gMonth."""
+    DASH = ("sep", "-")
+    for tzname, (tz_pieces, _, tz_post, _, _) in TZ.items():
+        legacy, _, _, _, _ = lexical_form([DASH, DASH, ("d2", "Mo"), DASH, DASH, ("tz", tzname)])
+        core, ghost, ranges, plan, hints = lexical_form([DASH, DASH, ("d2", "Mo"), ("tz", tzname)])
+        flat = lexical_form.pieces
+        tz = _cat(list(tz_pieces))
+        month = "'-' + '-' + pad(Mo, 2)"
+        hints = [h for h in hints if not h.startswith("strip_core(")]
+        hints += [f"substr_at(value, '', {month}, '-' + '-' + {tz})", f"substr_at(value, {month}, '-' + '-', {tz})",
+                  f"substr_at(value, {month} + '-' + '-', {tz}, '')", "digits_only(pad(Mo, 2), ':')", "digits_only(pad(Mo, 2), '-')"]
+        db.add(Contract(
+            f"{DT}:XmlPeriod._parse_period", variant=f"accepts-gMonth-legacy-{tzname}",
+            params={"cls": "opaque:type", "value": "str"}, ghost=ghost,
+            requires=ranges + ["1 <= Mo", "Mo <= 12", f"value == {legacy}"],
+            hints=hints, call_variants=plan,
+            ensures=[("year", "result.year is None"), ("month", "result.month == Mo"), ("day", "result.day is None"), ("timezone", tz_post)],
+            raises={}, properties=["C06"],
+        ))
 
 
 def register_long_years(db):
